@@ -16,7 +16,10 @@ SPECIAL_NUMS = ["0", "1", "-1", "2", "3", "0.5", "-0.5", "1.5", "2.25", "100", "
                 "65535", "65536", "2147483647", "2147483648", "-2147483648", "4294967295", "4294967296",
                 "9007199254740992", "9007199254740993", "9223372036854775807", "-9223372036854775808",
                 "18446744073709551615", "0.125", "1e2", "1024", "0.0009765625", "9223372036854775808", "18446744073709549568",
-                "-9223372036854775808", "1e19"]
+                "-9223372036854775808", "1e19",
+                # large integers that are exactly float64 (m * 2^k): the float quotient of multipleOf rounds here
+                "36028797018963968", "1152921504606846976", "3458764513820540928", "1000000000000000000", "4611686018427387904",
+                "-36028797018963968", "72057594037927936"]
 
 
 def dec(fr):
